@@ -46,12 +46,18 @@ pub struct RefZone {
 }
 
 pub fn load_ref_zone(name: &str) -> Result<RefZone, String> {
+    load_ref_zone_with(name, false)
+}
+
+/// `full_cycle`: evaluate the footer rule for every year of a whole 400-year Gregorian cycle after the
+/// table (every combination of leap year and weekday of 1 January), not only for the sampled years.
+pub fn load_ref_zone_with(name: &str, full_cycle: bool) -> Result<RefZone, String> {
     let bytes = std::fs::read(format!("{ZONEINFO}/{name}")).map_err(|e| e.to_string())?;
     let file = r7::parse_tzif(&bytes)?;
     let last_table = file.trans.last().map(|x| x.0).unwrap_or(i64::MIN);
     let last_year = if last_table == i64::MIN { 1970 } else { civil_from_days(last_table.div_euclid(86_400)).0 };
-    let mut years: Vec<i64> = (last_year.min(2037)..=2045).collect();
-    years.extend([2099, 2100, 2101, 2399, 2400, 2401, 9997, 9998, 9999]);
+    let mut years: Vec<i64> = (last_year.min(2037)..=if full_cycle { 2437 } else { 2045 }).collect();
+    years.extend([2099, 2100, 2101, 2399, 2400, 2401, 9997, 9998, 9999, 275_758, 275_759, 275_760]);
     let has_rule = !file.footer.is_empty() && r7::parse_posix(&file.footer).map(|r| r.dst.is_some()).unwrap_or(false);
     let zone = r7::build_zone(&file, &years)?;
     Ok(RefZone { name: name.to_string(), file, zone, last_table, rule_years: years, has_rule })
@@ -93,7 +99,7 @@ impl Space for ZoneSweep {
     }
     fn eval(&self, i: u64, out: &mut Out) {
         let name = &self.names[i as usize];
-        let rz = match load_ref_zone(name) {
+        let rz = match load_ref_zone_with(name, self.tier == Tier::Thorough) {
             Ok(z) => z,
             Err(e) => {
                 out.unjudged += 1;
@@ -149,7 +155,18 @@ impl Space for ZoneSweep {
             }
             for (ns, sub) in variants {
                 let want = rz.zone.offset_at(ns);
-                let got = call(|| provider.get_named_tz_offset_nanoseconds(name, ns).map(|o| o.offset));
+                let full = call(|| provider.get_named_tz_offset_nanoseconds(name, ns));
+                // the reported start of the offset period lies inside the period: not after the instant, not
+                // before the last change of offset, and nothing is reported before the first listed transition
+                if let Oc::Ok(o) = &full {
+                    let last_change: Option<i128> = rz.zone.trans.iter().enumerate().filter(|(k, x)| x.0 <= ns && x.1 != if *k == 0 { rz.zone.initial } else { rz.zone.trans[*k - 1].1 }).map(|(_, x)| x.0).last();
+                    let ok = match o.transition_epoch {
+                        None => rz.file.trans.first().map(|f| ns.div_euclid(NS) < f.0 as i128).unwrap_or(true) || last_change.is_none(),
+                        Some(te) => te as i128 * NS <= ns && last_change.map(|lc| te as i128 * NS >= lc).unwrap_or(true),
+                    };
+                    out.law("transition_epoch lies in the offset period of the instant", ok, || vec![("zone", name.clone()), ("epoch_seconds", ts.to_string()), ("probe", kind.to_string()), ("region", region(&rz, ns.div_euclid(NS) as i64).to_string()), ("transition_epoch", format!("{:?}", o.transition_epoch)), ("last_change", format!("{last_change:?}"))]);
+                }
+                let got = full.map(|o| o.offset);
                 n_off += 1;
                 out.lockstep("get_named_tz_offset_nanoseconds", &Ok(want), &got, |a, b| a == b, || {
                     vec![
@@ -218,10 +235,10 @@ impl Space for ZoneSweep {
                 });
             }
         }
-        // wall-clock readings within a day of the ends of the representable range (zones without a DST
-        // rule, so that the reference needs no rule evaluation that far out): the reading may lie beyond the
-        // instant range while its instant does not
-        if !rz.has_rule {
+        // wall-clock readings within a day of the ends of the representable range (the reference evaluates the
+        // footer rule for the years 275758-275760 too): the reading may lie beyond the instant range while its
+        // instant does not
+        {
             for end in [tmc_ref::r1::MAX_INSTANT_NS, -tmc_ref::r1::MAX_INSTANT_NS] {
                 for back in [0i128, NS, 3_600 * NS, 43_200 * NS] {
                     let t = end - end.signum() * back;
